@@ -419,6 +419,7 @@ func decoders() []decoder {
 		)
 	}
 	out = append(out,
+		decoder{"ics20/default-encoding", func(b []byte) { _, _ = transfertypes.UnmarshalPacketData(b, transfertypes.V1, "") }},
 		decoder{"ics20/abi-raw", func(b []byte) { _, _ = transfertypes.DecodeABIFungibleTokenPacketData(b) }},
 		decoder{"att-state/abi", func(b []byte) { _, _ = attestations.ABIDecodeStateAttestation(b) }},
 		decoder{"att-packet/abi", func(b []byte) { _, _ = attestations.ABIDecodePacketAttestation(b) }},
@@ -451,6 +452,7 @@ func validEncodings() map[string][][]byte {
 			out["gmpack/"+short(enc)] = append(out["gmpack/"+short(enc)], bz)
 		}
 	}
+	out["ics20/default-encoding"] = out["ics20/json"]
 	sa := attestations.StateAttestation{Height: 7, Timestamp: 9 * nanosPerSecond}
 	if bz, err := sa.ABIEncode(); err == nil {
 		out["att-state/abi"] = append(out["att-state/abi"], bz)
@@ -641,6 +643,31 @@ func run(c *core.C) {
 			})
 		}
 	}
+	// JSON-token enumeration for the JSON decoders: every concatenation of <= 3 (thorough 4) tokens is a
+	// whole input (so `null`, `true`, `0`, `""`, `[]`, `{}` ... are all decoded), and <= 2 (3) tokens
+	// as the value of each top-level field
+	tokTargets := map[string][]string{
+		"ics20/json":             {"%s", `{"denom":%s,"amount":"1","sender":"s","receiver":"r"}`, `{"denom":"a","amount":%s,"sender":"s","receiver":"r"}`, `{"denom":"a","amount":"1","sender":%s,"receiver":"r"}`, `{"denom":"a","amount":"1","sender":"s","receiver":%s}`, `{"denom":"a","amount":"1","sender":"s","receiver":"r","memo":%s}`},
+		"ics20/default-encoding": {"%s", `{"denom":"a","amount":"1","sender":"s","receiver":"r","memo":%s}`},
+		"gmp/json":               {"%s", `{"sender":%s}`, `{"sender":"s","receiver":%s}`, `{"sender":"s","salt":%s}`, `{"sender":"s","payload":%s}`, `{"sender":"s","memo":%s}`},
+		"gmpack/json":            {"%s", `{"result":%s}`},
+	}
+	tok := 0
+	for _, d := range decoders() {
+		for _, w := range tokTargets[d.Name] {
+			n := core.Pick(c, 3, 4)
+			if w != "%s" {
+				n = core.Pick(c, 2, 3)
+			}
+			tokenSequences(n, func(seq string) bool {
+				tok++
+				tryDecode(c, d, []byte(strings.Replace(w, "%s", seq, 1)))
+				return tok%4096 != 0 || !c.TimeUp()
+			})
+		}
+	}
+	np += tok
+	c.Set("json_token_inputs", tok)
 	c.Set("no_panic_inputs", np)
 
 	c.Set("evaluations", ics.evals+gmp.evals+ack.evals+att.evals+np)
@@ -649,7 +676,30 @@ func run(c *core.C) {
 	c.Assume("valid ICS-20 value = FungibleTokenPacketData.ValidateBasic accepts it, all strings are valid UTF-8 and the amount is a string of decimal digits denoting 1..2^256-1 (the ICS-20 reading); its integer is the decimal one, computed with math/big")
 	c.Assume("the integer of a decoded transfer is sdkmath.NewIntFromString(Token.Amount), which is what Token.ToCoin / Token.Validate use, i.e. the amount the transfer module would move")
 	c.Assume("a value that an encoder refuses is not representable in that encoding and is outside the quantifier (counted in *_unrepresentable)")
-	c.Assume("arbitrary-bytes robustness is decided here only up to length 1 (quick) / 2 (thorough) plus single mutations of one valid encoding per decoder; C47 runs the larger enumeration over the same decoders")
+	c.Assume("arbitrary-bytes robustness is decided here only up to length 1 (quick) / 2 (thorough) plus single mutations of one valid encoding per decoder, plus every sequence of <= 3 (thorough 4) JSON tokens for the JSON decoders; C47 runs the larger enumeration over the same decoders")
+}
+
+var jsonTokens = []string{"null", "true", "false", "0", "-1", "1e999", `""`, `"a"`, "{", "}", "[", "]", ":", ",", " ", "\n"}
+
+// tokenSequences calls emit with the concatenation of every sequence of 0..max tokens.
+func tokenSequences(max int, emit func(s string) bool) {
+	var rec func(prefix string, n int) bool
+	rec = func(prefix string, n int) bool {
+		if n == 0 {
+			return emit(prefix)
+		}
+		for _, t := range jsonTokens {
+			if !rec(prefix+t, n-1) {
+				return false
+			}
+		}
+		return true
+	}
+	for l := 0; l <= max; l++ {
+		if !rec("", l) {
+			return
+		}
+	}
 }
 
 func allBytes() []string {
